@@ -14,7 +14,7 @@ func parseJSONText(s string) (interface{}, error) {
 
 // Typed universes for the function streams.
 var fnNums = []string{`0`, `1`, `-1`, `2`, `2`, `0.5`, `-2.5`, `3.7`, `-3.2`, `100`, `1e21`, `1e-7`}
-var fnStrs = []string{`""`, `"a"`, `"b"`, `"ab"`, `"abc"`, `"ba"`, `"héllo"`, `"世界😀"`, `"1"`, `"-2.5"`, `"1e2"`, `" 1"`, `"0x10"`, `"inf"`, `"-inf"`, `"nan"`, `"Infinity"`, `"1e999"`, `"a,b"`, `"<&>"`}
+var fnStrs = []string{`""`, `"a"`, `"b"`, `"ab"`, `"abc"`, `"ba"`, `"héllo"`, `"世界😀"`, `"1"`, `"-2.5"`, `"1e2"`, `" 1"`, `"0x10"`, `"inf"`, `"-inf"`, `"nan"`, `"Infinity"`, `"1e999"`, `"a,b"`, `"<&>"`, `"\\u003c\\u0026"`, `"x\\\\u003ey"`}
 var fnArrs = []string{`[]`, `[1]`, `[2,1]`, `[1,2,2,1]`, `[3,-1,0.5]`, `["b","a"]`, `["a","ab",""]`, `["","a"]`, `["",""]`, `["é","z","a"]`, `[1,"a"]`, `[[1],[2]]`, `[[1,2],[3]]`, `[null,1]`,
 	`[{"a":2,"n":0},{"a":1,"n":1},{"a":2,"n":2},{"a":1,"n":3}]`, `[{"a":"y"},{"a":"x"},{"a":"y"}]`, `[{"a":1},{"a":"x"}]`, `[{"a":1},{}]`, `[{"a":null}]`, `[[1]]`, `[{"a":[1]}]`}
 var fnObjs = []string{`{}`, `{"a":1}`, `{"a":2,"b":3}`, `{"b":4,"c":5}`, `{"a":null}`, `{"a":{"x":1}}`, `{"":0}`, `{"é":1,"a":[1]}`}
@@ -231,7 +231,7 @@ var errSeeds = []string{"abs(`\"a\"`)", "length(`1`)", "nosuch(@)", "abs()", "`[
 	"`null`.abs(@)", "`null`.nosuch(@)", "(`[]`[0].length(@))", "`{}`.k.abs(@)"}
 
 // One-hole contexts in which the hole must be evaluated (document: errDoc).
-var strictCtx = []string{"%s", "(%s)", "%s.a", "%s[0]", "%s[*]", "%s[]", "%s[?a]", "%s.*", "%s[1:]", "%s | a", "a | %s", "%s || a", "%s && a", "!%s",
+var strictCtx = []string{"{k: %s, k: a}", "{k: a, k: %s}", "{k: %s, j: a, k: a}", "arr[*].{k: %s, k: a}", "[%s, %s][1]", "%s", "(%s)", "%s.a", "%s[0]", "%s[*]", "%s[]", "%s[?a]", "%s.*", "%s[1:]", "%s | a", "a | %s", "%s || a", "%s && a", "!%s",
 	"%s == a", "a == %s", "%s < a", "a < %s", "nums[0] < %s", "%s >= nums[0]", "[a, %s]", "[%s]", "{k: %s}", "{k: a, j: %s}", "arr[*].[%s]", "arr[?%s]", "arr[?a == %s]",
 	"arr[*].{k: %s}", "empty || %s", "arr && %s", "abs(%s)", "not_null(%s)", "not_null(a, %s)", "to_array(%s)", "length(%s)", "type(%s)", "merge(obj, %s)",
 	"contains(arr, %s)", "sort_by(arr, &%s)", "map(&%s, arr)", "max_by(arr, &%s)", "map(&a, %s)", "arr[].%s", "obj.*.%s | @", "arr[0:2].%s", "to_string(%s)", "arr[*].a | %s"}
